@@ -43,7 +43,7 @@ RULE = (
     "BFS over configuration histories of REAL PersistenceImager objects: initial states = all "
     "constructor products birth_range x pers_range x pixel_size (7x7x6; ranges include extents just above / below a multiple of the pixel) + defaults; operations = "
     "birth_range=r (7), pers_range=r (7), pixel_size=s (6), fit(D) for 3 data sets x skew on/off (6) + a float32 and an integer data set (3) + fits through ONE reused array / list object refilled in place (4), fit_transform(D) for 2 data sets x skew on/off (4); "
-    "depth 2 (quick) / 4 (thorough), plus the FULL tree of histories (no de-duplication) to depth 4 (5) over a reduced 9-operation alphabet from 3 states; states de-duplicated on the public geometry "
+    "depth 2 (quick) / 3 (thorough), plus the FULL tree of histories (no de-duplication) to depth 4 (5) over a reduced 9-operation alphabet from 3 states; states de-duplicated on the public geometry "
     "(ranges, width, height, resolution, pixel_size) with differential continuation of merged states. "
     "Every state: resolution*pixel = width/height = range extents, transform shape = resolution, "
     "black-box pixel probe (narrow kernel at predicted pixel centres). Every transition: covered "
@@ -58,7 +58,7 @@ ASSUMPTIONS = [
 
 
 def bounds(tier):
-    return {"ranges": RANGES, "pixels": PIXELS, "data": list(DATA), "depth": 2 if tier == "quick" else 4,
+    return {"ranges": RANGES, "pixels": PIXELS, "data": list(DATA), "depth": 2 if tier == "quick" else 3,
             "n_init": len(inits()), "n_ops": len(OPS)}
 
 
@@ -388,7 +388,7 @@ def run_shard(ctx):
         if jx % ctx.nshards == ctx.shard:
             history.bfs(ctx, _M, inits_u, ops_u, 2 if ctx.tier == "quick" else 3, run_history)
     mine = [x for i, x in enumerate(inits()) if i % ctx.nshards == ctx.shard]
-    depth = 2 if ctx.tier == "quick" else 4
+    depth = 2 if ctx.tier == "quick" else 3      # (41 operations: depth 4 exceeded the 30 min budget of the thorough tier)
     history.bfs(ctx, _M, mine, OPS, depth, run_history)
     # long histories: every sequence of 4 (thorough 5) operations over a reduced alphabet, without state
     # de-duplication (hidden state such as call counters cannot hide behind a repeated public state)
